@@ -593,7 +593,7 @@ pub fn recover_units(p: &Program) -> Option<Vec<ExpUnit>> {
     None
 }
 
-fn program_has_contra(p: &Program) -> bool {
+pub fn program_has_contra(p: &Program) -> bool {
     p.units.iter().any(|u| match u {
         Unit::Rows(r) => match &r.contra {
             None => false,
